@@ -168,7 +168,7 @@ def set_partitions(seq):
             yield p[:i] + [[first] + p[i]] + p[i + 1:]
 
 
-def dims_variants(lens, max_perms=None):
+def dims_variants(lens, max_perms=None, mixed=True):
     """All dims shapes for `len(lens)` keys (as key *indices*): None, and for every set partition
     into equal-length blocks every order of the blocks, in several spellings (str vs 1-tuple for a
     single key; key order inside a zipped tuple).  Elements: int (spelled as str) or tuple of ints."""
@@ -188,7 +188,7 @@ def dims_variants(lens, max_perms=None):
             if all(len(b) == 1 for b in perm):
                 out.append([b[0] for b in perm])                    # all strings
                 out.append([(b[0],) for b in perm])                 # all 1-tuples
-                if n >= 2:
+                if n >= 2 and mixed:
                     out.append([b[0] if j % 2 else (b[0],) for j, b in enumerate(perm)])
             else:
                 out.append([b[0] if len(b) == 1 else tuple(b) for b in perm])
@@ -261,7 +261,7 @@ def operand_pool(tier):
     for n in (1, 2):
         top = 3 if n == 1 else max_len2
         for lens in itertools.product(range(top + 1), repeat=n):
-            for d in dims_variants(lens):
+            for d in dims_variants(lens, mixed=tier != "quick"):
                 pool.append((list(lens), d))
     if tier != "quick":
         for lens in itertools.product(range(3), repeat=3):
@@ -343,13 +343,20 @@ def simplify_spec(spec, keep=()):
                     s = _copy(spec)
                     s["deriv"][i][1] = [x for x in rd if x != r]
                     yield s
+        ikeys = [k for k, _ in spec["items"]]
+        for i, (o, rd) in enumerate(spec["deriv"]):
+            if o in ikeys and o not in keep:  # an overwriting deriver becomes one that adds a new key
+                s = _copy(spec)
+                s["deriv"][i][0] = f"n{o}"
+                yield s
     if spec["dims"] is not None:
         s = _copy(spec)
         s["dims"] = None
         yield s
-    for g in groups_of(spec):  # shorten a group (never down to an empty list)
+    has_empty = any(len(v) == 0 for _, v in spec["items"])
+    for g in groups_of(spec):  # shorten a group (down to an empty list only if the sweep already has one)
         n = len(dict(spec["items"])[g[0]])
-        if n >= 2:
+        if n >= 2 or (n == 1 and has_empty):
             s = _copy(spec)
             for kv in s["items"]:
                 if kv[0] in g:
@@ -381,7 +388,7 @@ def simplify_spec(spec, keep=()):
             yield s
 
 
-def shrink(case, still_fails, simplify, budget=80):
+def shrink(case, still_fails, simplify, budget=400):
     """Greedy delta-debugging: keep applying the first simplification that still fails."""
     cur, progress = case, True
     while progress and budget > 0:
